@@ -224,7 +224,8 @@ func concOp(kind int, seed int64) string {
 		v, err := smpp.ToValidatePeriod(time.Unix(int64(rr.Intn(2000000000)), 0).UTC(), fmt.Sprintf("%ds", rr.Intn(3000000)), rr.Intn(2) == 0)
 		return fmt.Sprint(a, b, c, d, e, g, h, str, cmpp.MsgIDString2Uint64(str), cmpp.CombineMsgID(a, b, c, d, e, g, h), r1, r2, v, err != nil)
 	case 9: // an encode that must fail (a value too long for its slot), like a caller's mistake in production
-		tn := []string{"smgp30.Submit", "cmpp20.PduSubmit", "cmpp30.Deliver", "sgip12.Bind", "smgp30.Login"}[rr.Intn(5)]
+		tn := []string{"smgp30.Submit", "cmpp20.PduSubmit", "cmpp30.Deliver", "sgip12.Bind", "smgp30.Login", "cmpp30.Submit", "cmpp30.Connect",
+			"sgip12.Submit", "smgp30.Deliver", "cmpp20.PduDeliver"}[rr.Intn(10)]
 		a := defaultAssign(rr, tn, true)
 		for _, f := range layouts[tn].Fields {
 			if f.K == "F" {
